@@ -44,22 +44,27 @@ func c18Record(i int, raw []byte) Result {
 	segs := 0
 	for w := 0; w < q.N; w++ {
 		c := c18Case{Fmt: pick("xlsx", "pptx", "epub")}
-		pr := c18Prof{Paths: pick("std", "nested", "renamed"), Tgt: pick("rel", "abs"), Extras: rnd.Intn(2) == 0, Infra: rnd.Intn(2) == 0,
+		pr := c18Prof{Paths: pick("std", "nested", "renamed", "dot"), Alias: "none", Tgt: pick("rel", "abs"), Extras: rnd.Intn(2) == 0, Infra: rnd.Intn(2) == 0,
 			Enc: "none", Opf: "root", Ver: 0}
 		var rel []string
 		stem, ext := "", "xml"
 		switch c.Fmt {
 		case "xlsx":
 			c.Base = []string{"xl"}
-			rel = map[string][]string{"std": {"worksheets"}, "nested": {"worksheets", "sub"}, "renamed": {"data"}}[pr.Paths]
-			stem = map[string]string{"std": "sheet", "nested": "sheet", "renamed": "tab"}[pr.Paths]
+			rel = map[string][]string{"std": {"worksheets"}, "nested": {"worksheets", "sub"}, "renamed": {"data"}, "dot": {".", "worksheets"}}[pr.Paths]
+			stem = map[string]string{"std": "sheet", "nested": "sheet", "renamed": "tab", "dot": "sheet"}[pr.Paths]
+			pr.Enc = pick("none", "none", "sp20", "plusLit", "pct2520", "eC3A9", "paren", "amp")
+			pr.Alias = pick("none", "decoded", "query")
 		case "pptx":
 			c.Base = []string{"ppt"}
-			rel = map[string][]string{"std": {"slides"}, "nested": {"slides", "deck"}, "renamed": {"pages"}}[pr.Paths]
-			stem = map[string]string{"std": "slide", "nested": "slide", "renamed": "page"}[pr.Paths]
+			rel = map[string][]string{"std": {"slides"}, "nested": {"slides", "deck"}, "renamed": {"pages"}, "dot": {".", "slides"}}[pr.Paths]
+			stem = map[string]string{"std": "slide", "nested": "slide", "renamed": "page", "dot": "slide"}[pr.Paths]
+			pr.Enc = pick("none", "none", "sp20", "plusLit", "pct2520", "eC3A9", "paren", "amp")
+			pr.Alias = pick("none", "decoded", "query")
 		case "epub":
 			pr.Tgt = "rel"
-			pr.Enc = pick("none", "sp20", "plusLit", "plus2B")
+			pr.Enc = pick("none", "sp20", "plusLit", "plus2B", "pct2520", "pct25z", "eC3A9", "eRaw", "paren", "amp")
+			pr.Alias = pick("none", "decoded", "undecoded", "query")
 			pr.Opf = pick("root", "one", "two")
 			if pr.Paths == "renamed" && pr.Opf == "root" {
 				pr.Opf = "one"
@@ -67,8 +72,8 @@ func c18Record(i int, raw []byte) Result {
 			pr.Ver = 2 + rnd.Intn(2)
 			pr.Extra = rnd.Intn(2) == 0
 			c.Base = map[string][]string{"root": {}, "one": {"OEBPS"}, "two": {"OPS", "pkg"}}[pr.Opf]
-			rel = map[string][]string{"std": {}, "nested": {"text", "part"}, "renamed": {"..", "text"}}[pr.Paths]
-			stem = map[string]string{"std": "ch", "nested": "ch", "renamed": "sec"}[pr.Paths]
+			rel = map[string][]string{"std": {}, "nested": {"text", "part"}, "renamed": {"..", "text"}, "dot": {".", "text"}}[pr.Paths]
+			stem = map[string]string{"std": "ch", "nested": "ch", "renamed": "sec", "dot": "ch"}[pr.Paths]
 			ext = "xhtml"
 		}
 		c.Prof = pr
@@ -85,11 +90,34 @@ func c18Record(i int, raw []byte) Result {
 		total := k + ndecoy + nextra
 		nums := rnd.Perm(60)[:total] // numbers in the file names
 		sort.Ints(nums)
-		ids := rnd.Perm(80)[:k] // content tokens 1..80 of the declared parts
+		ids := rnd.Perm(60)[:k] // content tokens 1..60 of the declared parts
 		declPerm, relPerm, zipPerm := rnd.Perm(k), rnd.Perm(k), rnd.Perm(total)
 		// which of the name numbers go to decoys: random positions
 		roles := rnd.Perm(total)
-		sp := map[string]string{"none": "none", "sp20": "space", "plusLit": "plus", "plus2B": "plus"}[pr.Enc]
+		// the generator's own copy of the naming rules (PartsOrderTrace re-checks every package):
+		// EPUB hrefs are percent-decoded once, OPC targets are the member name text
+		pathDec := map[string]string{"none": "none", "sp20": "space", "plusLit": "plus", "plus2B": "plus", "pct2520": "pct20",
+			"pct25z": "pctz", "eC3A9": "eacute", "eRaw": "eacute", "paren": "paren", "amp": "amp"}
+		literal := map[string]string{"none": "none", "sp20": "pct20", "plusLit": "plus", "plus2B": "pct2B", "pct2520": "pct2520",
+			"pct25z": "pct25z", "eC3A9": "pctC3A9", "eRaw": "eacute", "paren": "paren", "amp": "amp"}
+		reDec := map[string]string{"pct20": "space", "pct2B": "plus", "pctC3A9": "eacute", "pct2520": "pct20", "pct25z": "pctz"}
+		sp := literal[pr.Enc]
+		if c.Fmt == "epub" {
+			sp = pathDec[pr.Enc]
+		}
+		aliasSp := sp
+		switch pr.Alias {
+		case "decoded":
+			if v, ok := reDec[sp]; ok {
+				aliasSp = v
+			}
+		case "undecoded":
+			aliasSp = literal[pr.Enc]
+		case "query":
+			if sp == "plus" {
+				aliasSp = "space"
+			}
+		}
 		mk := func(id, n, decl, rl, zp int) c18Part {
 			h := c18Href{Abs: pr.Tgt == "abs", Stem: stem, Enc: pr.Enc, N: n, Ext: ext}
 			if h.Abs {
@@ -117,11 +145,25 @@ func c18Record(i int, raw []byte) Result {
 				c.Parts = append(c.Parts, mk(91, n, 0, k+1, zipPerm[j]+1))
 			}
 		}
+		// decoys named like a wrong reading of each declared reference
+		if aliasSp != sp {
+			np := len(c.Parts)
+			for j := 0; j < np; j++ {
+				if p := c.Parts[j]; p.Decl > 0 {
+					d := p
+					d.ID, d.Decl, d.Rel, d.Zip, d.Present = 100+p.ID, 0, 0, total+2+j, true
+					d.Name.Dir = append([]string{}, p.Name.Dir...)
+					d.Name.Sp = aliasSp
+					c.Parts = append(c.Parts, d)
+				}
+			}
+		}
 		// a decoy under the conventional name of the missing position (real parts live elsewhere)
-		if pr.Missing > 0 && pr.Paths != "std" && c.Fmt != "epub" && rnd.Intn(2) == 0 {
+		if pr.Missing > 0 && (pr.Paths == "nested" || pr.Paths == "renamed") && c.Fmt != "epub" && rnd.Intn(2) == 0 {
 			cdir := map[string][]string{"xlsx": {"xl", "worksheets"}, "pptx": {"ppt", "slides"}}[c.Fmt]
 			cstem := map[string]string{"xlsx": "sheet", "pptx": "slide"}[c.Fmt]
 			d := mk(95, pr.Missing, 0, 0, total+1)
+			d.Name.Sp, d.Href.Enc = "none", "none"
 			d.Name.Dir, d.Name.Stem = cdir, cstem
 			d.Href.Abs, d.Href.Segs, d.Href.Stem = false, cdir[1:], cstem
 			c.Parts = append(c.Parts, d)
